@@ -667,7 +667,21 @@ def check_index(ctx, repo):
 def attr_writes(repo, cls, fn, defcls, must, seen=None, depth=0):
     """self attributes written by ``fn`` (transitively through self.method() calls).
     must=True: on every path to a normal return; must=False: on some path."""
-    seen = seen or set()
+    top = not seen
+    if top:
+        memo = getattr(repo, "_c13_attr_writes", None)
+        if memo is None:
+            memo = repo._c13_attr_writes = {}
+        mk_ = (cls.qual, id(fn), must)
+        if mk_ in memo:
+            return set(memo[mk_])
+        res_ = _attr_writes(repo, cls, fn, defcls, must, set(), 0)
+        memo[mk_] = set(res_)
+        return res_
+    return _attr_writes(repo, cls, fn, defcls, must, seen, depth)
+
+
+def _attr_writes(repo, cls, fn, defcls, must, seen, depth):
     if id(fn) in seen or depth > 5:
         return set()
     seen = seen | {id(fn)}
@@ -683,7 +697,7 @@ def attr_writes(repo, cls, fn, defcls, must, seen=None, depth=0):
                         and n.func.value.id == selfname:
                     hit = repo.lookup_method(cls, n.func.attr)
                     if hit:
-                        out |= attr_writes(repo, cls, hit[1], hit[0], must, seen, depth + 1)
+                        out |= _attr_writes(repo, cls, hit[1], hit[0], must, seen, depth + 1)
         return out
 
     if not must:
@@ -1298,6 +1312,11 @@ class PosLabel:
             for n in astq.walk_no_nested(fn):
                 if isinstance(n, ast.Assign) and len(n.targets) == 1 and isinstance(n.targets[0], ast.Name):
                     changed |= self.bind(n.targets[0].id, n.value)
+                elif isinstance(n, ast.Assign) and len(n.targets) == 1 and isinstance(n.targets[0], ast.Tuple) \
+                        and isinstance(n.value, ast.Tuple) and len(n.value.elts) == len(n.targets[0].elts):
+                    for te_, ve_ in zip(n.targets[0].elts, n.value.elts):  # a, b = x, y
+                        if isinstance(te_, ast.Name):
+                            changed |= self.bind(te_.id, ve_)
                 elif isinstance(n, (ast.For, ast.comprehension)):
                     tg, itx = n.target, n.iter
                     k = self.iter_kind(itx)
